@@ -1,6 +1,7 @@
 package accessory
 
 import (
+	"bytes"
 	"crypto/md5"
 	"encoding/json"
 	"fmt"
@@ -91,8 +92,12 @@ func (m *Container) ContentHash() []byte {
 		log.Info.Panic(err)
 	}
 
+	// Numbers are kept as they are written – as float64 two
+	// accessory ids above 2^53 would be the same number.
 	val := map[string]interface{}{}
-	if err := json.Unmarshal(b, &val); err != nil {
+	dec := json.NewDecoder(bytes.NewReader(b))
+	dec.UseNumber()
+	if err := dec.Decode(&val); err != nil {
 		log.Info.Panic(err)
 	}
 
